@@ -1080,10 +1080,12 @@ def _iter_loop_level_jumps(body: Sequence[ast.AST], jump_types) -> Iterable[ast.
     for child in body:
         if isinstance(child, jump_types):
             yield child
-        if isinstance(
-            child, (ast.For, ast.AsyncFor, ast.While, ast.FunctionDef, ast.AsyncFunctionDef, ast.ClassDef)
-        ):
-            continue  # Jumps in there belong to the nested loop
+        if isinstance(child, (ast.For, ast.AsyncFor, ast.While)):
+            # Jumps in the body belong to the nested loop, jumps in its else clause to this one
+            yield from _iter_loop_level_jumps(child.orelse, jump_types)
+            continue
+        if isinstance(child, (ast.FunctionDef, ast.AsyncFunctionDef, ast.ClassDef)):
+            continue
         for field in ("body", "orelse", "finalbody", "handlers", "cases"):
             yield from _iter_loop_level_jumps(getattr(child, field, ()), jump_types)
 
